@@ -21,26 +21,26 @@ def soup(s):
 
 
 S_INSTR = {
-    "map_name": lambda i: f"#[map(r{i})]", "map_expr": lambda i: "#[map(~.x())]", "map_bare": lambda i: "#[map]", "map_idx": lambda i: "#[map(1)]",
+    "map_name": lambda i: f"#[map(r{i})]", "map_expr": lambda i: "#[map(f([~.x()], {@.y}, (~)))]", "map_bare": lambda i: "#[map]", "map_idx": lambda i: "#[map(1)]",
     "try_into_name": lambda i: f"#[try_into(q{i})]", "ghost_d": lambda i: "#[ghost({gh()})]", "ghost_nd": lambda i: "#[ghost]", "parent0": lambda i: "#[parent]",
     "parentp": lambda i: "#[parent(a, [map(bb)] b)]", "parentp_idx": lambda i: "#[parent([into(~.x())] 0)]", "child": lambda i: "#[child(p)]",
     "as_type": lambda i: "#[o2o(as_type(i64))]", "repeat": lambda i: "#[o2o(repeat)]", "stop_repeat": lambda i: "#[o2o(stop_repeat)]",
     "skip_repeat": lambda i: "#[o2o(skip_repeat)]", "ghosts": lambda i: "#[ghosts(g: {1})]", "literal": lambda i: "#[literal(1)]",
 }
 V_INSTR = {
-    "map_name": lambda i: f"#[map(R{i})]", "map_expr": lambda i: "#[map({f(~)})]", "map_bare": lambda i: "#[map]", "literal": lambda i: f"#[literal({i})]",
+    "map_name": lambda i: f"#[map(R{i})]", "map_expr": lambda i: "#[map({f([~], (@))})]", "map_bare": lambda i: "#[map]", "literal": lambda i: f"#[literal({i})]",
     "pattern": lambda i: "#[pattern(7 | 8)]", "ghost_d": lambda i: "#[ghost({dv()})]", "ghost_nd": lambda i: "#[ghost]", "hint_s": lambda i: "#[type_hint(as {})]",
     "hint_t": lambda i: "#[type_hint(as ())]", "hint_u": lambda i: "#[type_hint(as Unit)]", "ghosts": lambda i: "#[ghosts(g: {1})]", "ghosts_idx": lambda i: "#[ghosts(0: {1})]",
     "as_type": lambda i: "#[o2o(as_type(i32))]", "child": lambda i: "#[child(p)]", "parent0": lambda i: "#[parent]", "repeat": lambda i: "#[o2o(repeat)]",
     "stop_repeat": lambda i: "#[o2o(stop_repeat)]",
 }
 F_INSTR = {
-    "map_name": "#[map(x)]", "map_idx": "#[map(0)]", "map_expr": "#[map(~.x())]", "ghost_d": "#[ghost({gh()})]", "ghost_nd": "#[ghost]", "child": "#[child(p)]",
+    "map_name": "#[map(x)]", "map_idx": "#[map(0)]", "map_expr": "#[map(g([~.x()], {~}))]", "ghost_d": "#[ghost({gh()})]", "ghost_nd": "#[ghost]", "child": "#[child(p)]",
     "parent0": "#[parent]", "parentp": "#[parent(a)]", "as_type": "#[o2o(as_type(i64))]", "repeat": "#[o2o(repeat(permeate()))]", "literal": "#[literal(1)]",
 }
 TEXTRA = {"-": "", "cp_named": "#[child_parents(p: P)]", "cp_unit": "#[child_parents(p: P as Unit)]", "cp_struct": "#[child_parents(p: P as {})]",
           "ghosts_path": "#[ghosts(p@x: {1})]", "ghosts_destruct": "#[ghosts(W{a}: {1})]", "ghosts_idx": "#[ghosts(0: {1})]"}
-TPARAM = {"-": "", "ret": " | return ret(@)", "upd": " | ..upd(@)", "dflt": " | _ => dflt(@)", "vars": " | vars(v: {1})"}
+TPARAM = {"-": "", "ret": " | return ret(@)", "upd": " | ..upd([@][0])", "dflt": " | _ => dflt(@)", "vars": " | vars(v: {1})"}
 
 
 def arms(a):
